@@ -714,7 +714,7 @@ func (h *runner) roundtrips(rounds int) {
 					}
 					ck := randChunking(r, c)
 					ck.Ending = r.Intn(3)
-					o := h.readCase(0, head[:c], ck, "truncated request head", c%3 == 0)
+					o := h.readCase(0, head[:c], ck, "truncated request head", c%6 == 0)
 					if o.tag == tagOk {
 						res.Fail("truncation-accepted", fmt.Sprintf("prefix of %d/%d bytes of a request head accepted", c, len(head)), replay{Op: 0, Input: hex.EncodeToString(head[:c]), Chunking: &ck})
 					}
@@ -725,7 +725,7 @@ func (h *runner) roundtrips(rounds int) {
 					}
 					ck := randChunking(r, c)
 					ck.Ending = r.Intn(3)
-					o := h.readCase(1+c%2, rhead[:c], ck, "truncated response head", c%3 == 0)
+					o := h.readCase(1+c%2, rhead[:c], ck, "truncated response head", c%6 < 2)
 					if o.tag == tagOk {
 						res.Fail("truncation-accepted", fmt.Sprintf("prefix of %d/%d bytes of a response head accepted", c, len(rhead)), replay{Op: 1 + c%2, Input: hex.EncodeToString(rhead[:c]), Chunking: &ck})
 					}
@@ -1067,7 +1067,7 @@ func (h *runner) hostile(n int) {
 		}
 		ck := randChunking(r, len(in))
 		ck.Ending = r.Intn(3)
-		model := nModel < h.o.Pick(1000, 12000) && len(in) <= 600
+		model := nModel < h.o.Pick(800, 6000) && len(in) <= 600
 		if model {
 			nModel++
 		}
@@ -1108,6 +1108,7 @@ func child(o *vh.Opts) {
 	h.readCase(2, append(append([]byte{2, 2}, util.Uint64ToBytes(1<<63+5)...), []byte("helloWORLD")...), chunking{Ending: 1}, "fixed body announced 2^63+5 bytes", true)
 
 	h.roundtrips(o.Pick(2, 12))
+	h.res.Write(o.Out) // partial result: survives a later crash of the process
 	h.pipes(o.Pick(2, 20))
 	h.hostile(o.Pick(21000, 200000))
 
@@ -1137,6 +1138,13 @@ func main() {
 		return
 	}
 	res := vh.NewResult("crash of the child process while running the real code")
+	if b, e := os.ReadFile(filepath.Join(o.Out, "result.json")); e == nil {
+		var partial vh.Result
+		if json.Unmarshal(b, &partial) == nil {
+			res.Failures = append(res.Failures, partial.Failures...)
+			res.Evaluations = partial.Evaluations
+		}
+	}
 	var rp any
 	if b, e := os.ReadFile(filepath.Join(o.Out, "current_case.json")); e == nil {
 		_ = json.Unmarshal(b, &rp)
